@@ -4,6 +4,9 @@ semantics) on the same generated expressions: exhaustive small depth over a leaf
 Oracle: literal_value(e) == eval(e) on the real code, and constant conditions through remove_dead_ifs / format_code."""
 from __future__ import annotations
 
+import contextlib
+import io
+
 import ast
 import itertools
 
@@ -205,6 +208,8 @@ def eval_oracle(ctx):
              "{1: 2}", "{1, 2}", "b'a'", "1 if 2 else 3", "not []", "[] or 0 or ''", "1 in (1, 2)", "None is None", "1 is not None", "3 >> 1", "1 | 2",
              "sorted([2, 1])", "sum([1, 2])", "any(iter([1, 2]))", "all([])", "tuple([1])", "str(1)", "min(1, 2, 3)", "max([1, 2])", "abs(-2.5)", "int('3')",
              "1 < 3 < 2", "0 <= 7 <= 5", "1 == 1 != 1", "list(zip([1], [2]))", "list(reversed([1, 2]))", "round(2.5)", "divmod(7, 2)", "pow(2, 3)",
+             "'a' in 'abc'", "'abc' in 'a'", "'' in 'a'", "'a' not in 'abc'", "'abc' not in 'a'", "b'a' in b'abc'", "b'abc' in b'a'", "(1,) in ((1,), (2,))", "((1,), (2,)) in (1,)",
+             "1 not in (1, 2)", "3 in (1, 2)", "'x' in ['x', 'y']", "['x'] in ['x', 'y']", "1 in (1, 2) in ((1, 2),)", "'a' in 'abc' in ('abc',)", "() in ((),)", "'b' in 'abc' == True",
              "float('nan') == float('nan')", "1/0", "1 % 0", "None < 1", "1 + 'a'", "-'a'", "print(1)", "input()", "open('x')", "hash('a')", "id(1)"]
     exprs = [text(rand_expr(r)) for _ in range(ctx.n(1500, 20000))] + extra
     surface = surface_exprs()
@@ -252,6 +257,37 @@ def eval_oracle(ctx):
                 res.append("EXC " + type(ex).__name__)
         if res[0] != res[1]:
             s.disagreements.append({"expr": src, "out": out, "what": f"remove_dead_ifs folds 'if {src}' to the wrong branch: {res[0]} -> {res[1]}"})
+    # consumer: remove_redundant_boolop_values on displays (a display with starred elements may be empty, its elements may raise)
+    displays = ["[]", "()", "{}", "[0]", "(0,)", "[x]", "(x, y)", "[*y]", "(*y,)", "(*'', *b'')", "[*y, *y]", "{*()}", "[*y, 1]", "(*'a',)", "[1 / 0]", "(1 / 0,)", "[[]]", "{0: 0}", "{**{}}",
+                "[*[]]", "''", "'a'", "0", "1", "None", "x", "y", "[x][0]", "(*y, *y) or 0"]
+    shapes = ["print({d} and 1)", "print({d} or 2)", "print(1 and {d})", "print(0 or {d})", "print({d} and {e})", "print({d} or {e})", "if {d} and 'x':\n    print('reached')\nelse:\n    print('other')",
+              "print(not ({d} and 1))", "print([v for v in (1, 2) if {d} and v])", "print(({d} and 1) or ({e} and 2))"]
+    progs = []
+    for d in displays:
+        for sh in shapes:
+            for e in (["[0]"] if "{e}" not in sh else displays[:12]):
+                progs.append("x = 3\ny = ()\n" + sh.format(d=d, e=e) + "\n")
+    for prog in progs:
+        try:
+            out = fixes.remove_redundant_boolop_values(prog)
+        except Exception as ex:  # noqa: BLE001
+            s.disagreements.append({"expr": prog, "what": f"remove_redundant_boolop_values raised {ex!r}"})
+            continue
+        if out == prog:
+            continue
+        s.cases += 1
+        s.nt("boolop:" + prog)
+        res = []
+        for code in (prog, out):
+            buf = io.StringIO()
+            try:
+                with contextlib.redirect_stdout(buf):
+                    exec(code, {})
+                res.append(("ok", buf.getvalue()))
+            except Exception as ex:  # noqa: BLE001
+                res.append(("EXC " + type(ex).__name__, buf.getvalue()))
+        if res[0] != res[1]:
+            s.disagreements.append({"expr": prog, "out": out, "what": f"remove_redundant_boolop_values changes behaviour: {res[0]} -> {res[1]}"})
     s.note = "random in-fragment expressions + 50 out-of-fragment ones (floats, methods, dict/set, shifts, chained comparisons, iterators, effectful builtins) + the call surface (47 whitelisted builtins x 0-2 small arguments, every public method of 10 constant receivers x positional / keyword arguments, raising expressions in 7 contexts): literal_value(e) == eval(e) whenever a value is returned, never a non-ValueError exception; and 'if e:' folded by remove_dead_ifs executes like the original"
     return s
 
